@@ -1,7 +1,11 @@
 use crate::errors::PriceLevelError;
 use crate::orders::{OrderId, OrderType};
+#[cfg(not(feature = "verif-hooks"))]
 use crossbeam::queue::SegQueue;
+#[cfg(not(feature = "verif-hooks"))]
 use dashmap::DashMap;
+#[cfg(feature = "verif-hooks")]
+use crate::verif_hooks::{DashMap, SegQueue};
 use serde::de::{SeqAccess, Visitor};
 use serde::ser::SerializeSeq;
 use serde::{Deserialize, Deserializer, Serialize, Serializer};
@@ -66,6 +70,8 @@ impl OrderQueue {
     pub fn to_vec(&self) -> Vec<Arc<OrderType<()>>> {
         let mut orders: Vec<Arc<OrderType<()>>> =
             self.orders.iter().map(|o| o.value().clone()).collect();
+        #[cfg(feature = "verif-hooks")]
+        crate::verif_hooks::order_listing(&mut orders);
         orders.sort_by_key(|o| o.timestamp());
         orders
     }
